@@ -11,6 +11,7 @@ and no library / include is listed twice; a sample of sketches is linked against
 from __future__ import annotations
 
 import re
+import zlib
 
 from hypothesis import Phase, given, seed as hseed, strategies as st
 
@@ -191,7 +192,7 @@ def run_shard(name, seed, tier, n):
     @given(script())
     def prop(case):
         k[0] += 1
-        status, fails = evaluate(case, link=(k[0] % 3 == 0))
+        status, fails = evaluate(case, link=(zlib.crc32(case["src"].encode()) % 3 == 0))   # a function of the case: the same verdict when Hypothesis replays it
         r.count("status:" + status)
         r.count("libs:" + "+".join(case["expect"]) if case["expect"] else "libs:none")
         r.case(case if len(r.samples) < 1 else {"h": hash(case["src"]) & 0xffffffff}, status == "ok" and (bool(case["expect"]) or case["decoys"] > 0))
@@ -204,6 +205,9 @@ def run_shard(name, seed, tier, n):
         prop()
     except AssertionError:
         pass
+    except Exception:
+        if not last:   # not one of ours: a harness error
+            raise
     r.failures = list(last.values())
     return r
 
